@@ -593,6 +593,16 @@ def transformRow (opts : EncOpts) (i : Nat) (a : Attribute) (row : Bytes) : Byte
      | some t => octaRowDecode o.quantBits.toNat (octaRow t row)
      | none => [])
 
+/-- the quantization request of the options in the form `Spec.check` takes it: unique id ↦ bits for
+    the attributes that go through the quantization or the normal encoder -/
+def quantReq (g : Geometry) (opts : EncOpts) : List (Nat × Nat) :=
+  (zipIdxFrom 0 g.atts).filterMap fun ia =>
+    if encoderType ia.2 (opts.att ia.1) ≥ 2 then some (ia.2.uniqueId, (opts.att ia.1).quantBits.toNat)
+    else none
+
+/-- all attribute types: the skip set of the "all transforms skipped" decode -/
+def allTypes : List Nat := [0, 1, 2, 3, 4]
+
 /-- float oracle hypothesis for one normal: the first rounded coordinate computed by
     `FloatVectorToQuantizedOctahedralCoords` has magnitude at most `center_value_` (holds for every
     input as far as tested — the driver op `seqenc` evaluates it on every case; it cannot be proved
